@@ -237,10 +237,13 @@ class HistoryRun(object):
         self.replica.apply(a)
       del self.replica.problems[:]
     mid = doc.snapshot()
+    drift_mid = ed.numeric_drift(before, mid)
     d = ed.diff_snapshots(before, mid)
     if d:
       drift = ed.numeric_drift(before, mid)
-      if drift and all(x.startswith("cell") for x in d):
+      if circ_order_only(doc, d):
+        self._find("C01", CIRC_ORDER_SIG % "undo", "; ".join(d[:3]), rec)
+      elif drift and all(x.startswith("cell") for x in d):
         self._find("C01", DRIFT_SIG % "undo", "%s; drift at %r" % ("; ".join(d[:2]), drift[:2]), rec)
       else:
         self._find("C01", classify_diff("undo", d[0], rec), "; ".join(d[:3]), rec)
@@ -263,7 +266,13 @@ class HistoryRun(object):
     if d2:
       if "redo" in self.oracles:
         drift = ed.numeric_drift(after, post)
-        if drift and all(x.startswith("cell") for x in d2):
+        if circ_order_only(doc, d2):
+          self._find("C03", CIRC_ORDER_SIG % "redo", "; ".join(d2[:3]), rec)
+        elif drift_mid and not drift:
+          # the undo already left numbers of another numeric type behind (C01's drift finding);
+          # whatever the redo then computes differently (e.g. summary rows re-keyed) follows from it
+          self._find("C03", DRIFT_SIG % "redo", "%s; drift after the undo at %r" % ("; ".join(d2[:2]), drift_mid[:2]), rec)
+        elif drift and all(x.startswith("cell") for x in d2):
           self._find("C03", DRIFT_SIG % "redo", "%s; drift at %r" % ("; ".join(d2[:2]), drift[:2]), rec)
         else:
           self._find("C03", classify_diff("redo", d2[0], rec), "; ".join(d2[:3]), rec)
@@ -398,6 +407,31 @@ def classify_failed(rec, fault, doc):
     return ("rollback of ReplaceTableData leaves the table's formula columns at their defaults until the "
             "next calculation (its undo action carries data columns only)")
   return None
+
+
+CIRC = 'o["E", "CircularRefError"]'
+CIRC_ORDER_SIG = ("%s: cells hold CircularRefError on one side and a value on the other in a table whose formula columns "
+                  "depend on each other through lookup indexes (column-level cycle): the engine's result depends on "
+                  "evaluation order / history")
+
+
+def circ_order_only(doc, diffs):
+  """All differences are cells with CircularRefError on exactly one side, in tables that have a
+  lookup formula (cycles made of plain cell references are C18's exhaustive domain)."""
+  import re
+  if not diffs:
+    return False
+  sch = doc.engine_schema()
+  for d in diffs:
+    m = re.match(r"cell (\w+)\[\d+\]\.\S+: (.*) vs (.*)$", d)
+    if not m:
+      return False
+    a, b = m.group(2).strip("'\""), m.group(3).strip("'\"")
+    if (CIRC in m.group(2)) == (CIRC in m.group(3)):
+      return False
+    if not any("lookup" in (c[2] or "") for c in sch.get(m.group(1), {}).values()):
+      return False
+  return True
 
 
 DRIFT_SIG = ("%s: formula cells differ because a type change left numbers that differ only in int-vs-float "
